@@ -40,6 +40,11 @@ EXHAUSTIVE = {'quick': False, 'thorough': False}
 TIMEOUT = {'quick': 1500, 'thorough': 10000}
 
 
+# the first observation of both models is one forward pass in whatever mode they are in (the
+# restored model straight after load_state_dict, without any train()/eval() call in between)
+AS_IS = ('output',)
+
+
 def cases(tier, seed):
     cs = []
     n = 200 if tier == 'quick' else 2400
@@ -49,7 +54,8 @@ def cases(tier, seed):
         cfg = {'kind': kind, 'prog_seed': seed * 1000003 + 110000 + i, 'seed': seed * 7919 + i,
                'family': '1d' if (i // 4) % 2 == 0 else '2d', 'fold': (i // 8) % 3 == 0,
                'full_cost': (i // 3) % 2 == 0, 'train': (i // 5) % 2 == 0,
-               'gumbel': False, 'hard': (i // 7) % 3 == 0}
+               # (Gumbel noise is comparable: every observed forward is seeded)
+               'gumbel': kind != 'pit' and (i // 9) % 4 == 0, 'hard': (i // 7) % 3 == 0}
         cs.append({'cfg': cfg, 'k': i % 6, 'n_opts': (i // 6) % 4, 'move_nas': i % 3 != 0,
                    'temp_from_ckpt': (i // 4) % 2 == 0,
                    # the architecture is logged (summary / str / export) before the checkpoint
@@ -70,7 +76,8 @@ def build_and_train(case):
     nas, kind = m['nas'], m['kind']
     opts = nasfactory.random_options(rng, kind, case['n_opts'])
     if case['move_nas']:
-        nasfactory.randomize_nas_params(nas, rng)
+        # (PIT: in every other case the masks are pruned for real, not only perturbed)
+        nasfactory.randomize_nas_params(nas, rng, prune=kind == 'pit' and case['seed'] % 2 == 0)
     applied = []
     for o in opts[:len(opts) // 2]:
         if nasfactory.apply_option(nas, kind, o):
@@ -121,7 +128,7 @@ def child_main(argv):
     if role == 'A':
         m, applied = build_and_train(case)
         torch.save(m['nas'].state_dict(), os.path.join(wd, 'ckpt.pt'))
-        snap = snapshot.observe(m['nas'], m['xs'], m['cost_names'])
+        snap = snapshot.observe(m['nas'], m['xs'], m['cost_names'], as_is=AS_IS)
         with open(os.path.join(wd, 'A.json'), 'w') as f:
             json.dump({'snap': snap, 'applied': applied}, f)
             f.flush()
@@ -137,7 +144,7 @@ def child_main(argv):
         res['missing'], res['unexpected'] = list(r.missing_keys), list(r.unexpected_keys)
     except Exception as e:
         res['error'] = repr(e)[:600]
-    snap = snapshot.observe(m['nas'], m['xs'], m['cost_names']) if res['error'] is None else {}
+    snap = snapshot.observe(m['nas'], m['xs'], m['cost_names'], as_is=AS_IS) if res['error'] is None else {}
     with open(os.path.join(wd, 'B.json'), 'w') as f:
         json.dump({'snap': snap, 'load': res}, f)
     return 0
@@ -196,7 +203,7 @@ def run_case(case, ctx):
             ctx.skip('build: ' + type(e).__name__ + ': ' + str(e)[:80])
             return
         sd = {k: v.detach().clone() for k, v in m['nas'].state_dict().items()}
-        snap_a = snapshot.observe(m['nas'], m['xs'], m['cost_names'])
+        snap_a = snapshot.observe(m['nas'], m['xs'], m['cost_names'], as_is=AS_IS)
         m2 = build_fresh(case, applied)
         load = {'missing': [], 'unexpected': [], 'error': None}
         try:
@@ -204,7 +211,7 @@ def run_case(case, ctx):
             load['missing'], load['unexpected'] = list(r.missing_keys), list(r.unexpected_keys)
         except Exception as e:
             load['error'] = repr(e)[:600]
-        snap_b = snapshot.observe(m2['nas'], m2['xs'], m2['cost_names']) \
+        snap_b = snapshot.observe(m2['nas'], m2['xs'], m2['cost_names'], as_is=AS_IS) \
             if load['error'] is None else {}
         compare(ctx, case, snap_a, snap_b, load, 'in-process', applied)
     if case['k'] >= 1 or case['move_nas']:
